@@ -141,17 +141,17 @@ def refOk (ns : NS) (tf : List Bool) (n : Str) : Bool :=
     | some t => tf.getD i false && !t.skip
 
 /-- `IntrospectablePass._type_is_introspectable(typeval)` for the current flags `tf` of the
-    top-level nodes.  Branch order as in the source: unresolved / TypeUnknown, Array|List, Map,
-    foreign, fundamental (varargs is a fundamental named '<varargs>' and is accepted here!),
-    giname lookup. -/
+    top-level nodes.  Branch order as in the source: unresolved / TypeUnknown, Varargs (refused
+    since commit 1110ea5: a '...' can never be marshalled, annotated (skip) or not), Array|List,
+    Map, foreign, fundamental, giname lookup. -/
 def tyIntro (ns : NS) (tf : List Bool) : Ty → Bool
   | .unresolved => false
+  | .varargs => false
   | .array e => tyIntro ns tf e
   | .list e => tyIntro ns tf e
   | .map k v => tyIntro ns tf k && tyIntro ns tf v
   | .foreignT => true
   | .fund n => fundOk n
-  | .varargs => true
   | .ref n => refOk ns tf n
   | .ext intro skip _ => intro && !skip
 
@@ -299,10 +299,18 @@ def fieldKeepAnalyze (ns : NS) (tf : List Bool) (f : Field) (b : Bool) : Bool :=
   | some ty => if tyIntro ns tf ty then b else false
   | none => b
 
-/-- the field loop of `_introspectable_pass3`; `row` = flags of the nested callables -/
-def fieldKeepPass3 (ns : NS) (tf : List Bool) (row : List Bool) (f : Field) (b : Bool) : Bool :=
+/-- `field.anonymous_node.skip` for the anonymous callback `j` of the nested callables `subs` -/
+def subSkipped (subs : List Sub) (j : Nat) : Bool :=
+  match subs[j]? with
+  | some sub => sub.skip
+  | none => false
+
+/-- the field loop of `_introspectable_pass3`; `row` = flags of the nested callables `subs`.
+    Anonymous callback: `not anonymous_node.introspectable or anonymous_node.skip` (the `skip`
+    half since commit efccda4: `_propagate_callable_skips` may have marked the callback). -/
+def fieldKeepPass3 (ns : NS) (tf : List Bool) (subs : List Sub) (row : List Bool) (f : Field) (b : Bool) : Bool :=
   match f.anon with
-  | some j => if row.getD j true then b else false
+  | some j => if !row.getD j false || subSkipped subs j then false else b
   | none =>
     match f.ty with
     | some ty => if tyIntro ns tf ty then b else false
@@ -381,8 +389,8 @@ def propStep (ns : NS) (s : St) (i : Nat) : St :=
 def propWalk (ns : NS) (s : St) : St :=
   (List.range ns.tops.length).foldl (propStep ns) s
 
-/-- `_introspectable_pass3`: fields (anonymous callback: follow its flag; else the type), then the
-    signals once more through `_introspectable_callable_analysis` -/
+/-- `_introspectable_pass3`: fields (anonymous callback: follow its flag and its skip; else the
+    type), then the signals once more through `_introspectable_callable_analysis` -/
 def pass3Step (ns : NS) (s : St) (i : Nat) : St :=
   match ns.tops[i]? with
   | none => s
@@ -392,7 +400,7 @@ def pass3Step (ns : NS) (s : St) (i : Nat) : St :=
       match t.body with
       | .compound _ fields _ subs =>
         { s with
-          ff := s.ff.set i (rowMap fields (fieldKeepPass3 ns s.tf (s.sf.getD i [])) (s.ff.getD i []))
+          ff := s.ff.set i (rowMap fields (fieldKeepPass3 ns s.tf subs (s.sf.getD i [])) (s.ff.getD i []))
           sf := s.sf.set i (rowMap subs (subKeep fun sub => sub.sig.isSignal && callBad ns s.tf sub.sig) (s.sf.getD i [])) }
       | _ => s
 
@@ -431,12 +439,12 @@ def leaves : Ty → List Ty
   | t => [t]
 
 /-- a leaf is acceptable: foreign, an allowed fundamental, or a node that is (still)
-    introspectable and not skipped; `varargs` is listed separately (see `C05_exotic`) -/
+    introspectable and not skipped; never `unresolved`, never `varargs` -/
 def leafOk (ns : NS) (tf : List Bool) : Ty → Bool
   | .unresolved => false
   | .foreignT => true
   | .fund n => fundOk n
-  | .varargs => true
+  | .varargs => false
   | .ref n => refOk ns tf n
   | .ext intro skip _ => intro && !skip
   | _ => true
@@ -467,7 +475,7 @@ def closedB (ns : NS) (s : St) : Bool :=
           | some f =>
             !(s.ff.getD i []).getD k false ||
               (match f.anon with
-               | some j => (s.sf.getD i []).getD j true
+               | some j => (s.sf.getD i []).getD j false && !subSkipped subs j
                | none => match f.ty with
                  | some ty => tyClosed ns s.tf ty
                  | none => true)
